@@ -71,7 +71,8 @@ class C06(E1Check):
         return 4000 if tier == "quick" else 100000
 
     def hash_modes(self, tier: str, program: Any) -> tuple:
-        return (0,)
+        # thorough: both iteration orders of the task sets that anyio walks when it delivers a cancellation
+        return (0,) if tier == "quick" else (0, 1)
 
     def backends_for(self, tier: str, program: Any) -> tuple:
         if tier == "quick" and not (program.get("small") or program["kind"] in ("multi", "burst", "two")):
